@@ -49,6 +49,7 @@ class Transaction(transaction.Transaction):
     @raw_payee.setter
     def __raw_payee(self, value: Optional[EscapedString]) -> None:
         if value is not None and self.raw_narration is None:
+            value.check_detachable()  # refuse before adding the implied narration
             self.raw_narration = EscapedString.from_value('') 
         self.raw_string1 = value
 
